@@ -367,7 +367,7 @@ def generate() -> dict:
         f = Fn(fn)
         text = f.translate()
         lines.append('(* %s ; locals: %s *)' % (title, ', '.join('%s=%d' % (k, v) for k, v in f.vars.items()) or 'none'))
-        lines.append('Definition code_%s : stmt :=' % key)
+        lines.append('Definition code_%s : istmt :=' % key)
         lines.append(textwrap.fill(text, 110, initial_indent='  ', subsequent_indent='  ', break_long_words=False) + '.')
         lines.append('')
     return {'NamesCode.v': '\n'.join(lines) + '\n'}
